@@ -13,8 +13,8 @@ func init() {
 func runC17(c *Ctx) {
 	c.ruleConstruction("W1-conservation")
 	c.Min("W1-conservation", 4)
-	c.ruleLifecycle("W2-release-on-all-exits", map[string]bool{"acquire": true, "release-deferred": true, "puts-own-wrapper": true, "clear-before-put": true})
-	c.Min("W2-release-on-all-exits", 72)
+	c.ruleLifecycle("W2-release-on-all-exits", map[string]bool{"acquire": true, "one-acquire": true, "release-deferred": true, "puts-own-wrapper": true, "clear-before-put": true})
+	c.Min("W2-release-on-all-exits", 96)
 	// W2b: an engine taken out of the pool by prepare* is always handed to the caller (who defers the hand-back)
 	c.ruleLifecycleHelpers("W2b-acquired-engine-handed-on")
 	c.ruleFreeLists("W3-W4-free-lists")
